@@ -23,7 +23,7 @@ from lsprotocol.types import *
 from pygls.server import LanguageServer
 from pygls.workspace import TextDocument
 
-from pydjinni.exceptions import ConfigurationException
+from pydjinni.exceptions import ConfigurationException, ApplicationException
 from pydjinni.parser.ast import Function, Namespace
 from pydjinni.parser.base_models import TypeReference, BaseType, FileReference, BaseExternalType
 from pydjinni.parser.parser import Parser
@@ -78,6 +78,11 @@ def init_language_server(config: Path, generate_on_save: bool, generate_base_pat
         except ConfigurationException as e:
             ls.show_message_log(str(e), MessageType.Error)
             ls.show_message(f"PyDjinni: {e}", MessageType.Error)
+        except ApplicationException as e:
+            # a single error that is not part of a ParsingExceptionList (e.g. a duplicate type declaration)
+            if (e.position and isinstance(e.position.file, TextDocumentPath)
+                    and e.position.file.document.uri == uri):
+                error_items = [to_diagnostic(e, DiagnosticSeverity.Error, f"{e.__doc__}: {e.description}")]
 
         ast_cache[uri] = [type_def for type_def in ast if
                           type_def.position.file.as_uri() == uri]
